@@ -33,7 +33,7 @@ TRUSTED_BASE = [
 
 
 MODEL_SKIPPED = "model-skipped"
-MODEL_STALL_S = 240
+MODEL_STALL_S = 90
 
 
 def run_model(cmd, requests, starts=(), timeout=1800, stall=MODEL_STALL_S):
@@ -82,7 +82,7 @@ def run_model(cmd, requests, starts=(), timeout=1800, stall=MODEL_STALL_S):
         p.wait()
         if got >= want:
             break
-        if len(stalls) >= 5 or time.time() > t_end:
+        if len(stalls) >= 12 or time.time() > t_end:
             raise MachineryError(f"model driver {' '.join(cmd[-1:])}: {len(stalls) + 1} requests without an answer "
                                  f"(last: request {pos + got + 1}, {why})")
         k = pos + got
